@@ -1,6 +1,6 @@
 (* C02 - any history of operations is equivalent to a key->bytes map.  Statements only (partial: see MANIFEST). *)
 From Coq Require Import List ZArith NArith.
-From DOS Require Import Base Store StoreProofs StoreLemmas Mono MonoStep Programs ProgramsProofs Validate PackProofs MaintProofs.
+From DOS Require Import Base Store StoreProofs StoreLemmas Mono MonoStep Programs ProgramsProofs Validate PackProofs MaintProofs AddPackProofs ImportProofs C02Proofs.
 Import ListNotations.
 
 Section C02.
@@ -25,6 +25,27 @@ Proof.
   rewrite Hr. cbn [crash fst]. auto.
 Qed.
 
+(* ... and an EXACT one: no other key appears, disappears or changes what it reads back as *)
+Theorem C02_add_loose_changes_nothing_else : forall w l n chunks k',
+  Inv H inflate w -> k' <> H (concat chunks) ->
+  stored inflate (crash (run_events (w, l) (p_add_loose H w n chunks))) k' = stored inflate w k'.
+Proof. intros w l n chunks k' HI Hne. exact (add_loose_exact H inflate w l n chunks HI k' Hne). Qed.
+
+(* direct-to-pack (one pack, all modes, any batch) is put-all: every object of the batch is stored under its key (C01_direct_to_pack_roundtrip)
+   and every key that is not the key of an object of the batch reads back exactly as before, present or absent *)
+Theorem C02_add_to_pack_is_put_all : forall w l id objs nh twice fs k,
+  Inv H inflate w -> pending l = [] -> Forall (aobj_ok H inflate) objs ->
+  (forall o, In o objs -> okey o <> k) ->
+  stored inflate (crash (run_events (w, l) (p_add_to_pack w id objs nh twice fs))) k = stored inflate w k.
+Proof. intros w l id objs nh twice fs k HI Hp Ho Hk. exact (add_to_pack_exact H inflate H_inj w l id objs nh twice fs HI Hp Ho k Hk). Qed.
+
+(* the transfer of import_objects likewise (any batches over any packs) *)
+Theorem C02_import_is_put_all : forall w l bs nh twice fs k,
+  Inv H inflate w -> pending l = [] -> Forall (fun b => Forall (aobj_ok H inflate) (snd b)) bs ->
+  (forall b o, In b bs -> In o (snd b) -> okey o <> k) ->
+  stored inflate (crash (run_events (w, l) (p_import w nh twice fs bs))) k = stored inflate w k.
+Proof. intros w l bs nh twice fs k HI Hp Ho Hk. exact (import_exact H inflate H_inj w l bs nh twice fs HI Hp Ho k Hk). Qed.
+
 (* maintenance changes where bytes live, never which keys exist or what they read back as: along ANY monotone history
    (pack_all_loose with any options, clean_storage, re-loosening, appends) every stored object stays stored with its bytes *)
 Theorem C02_maintenance_is_invisible : forall w w' k c,
@@ -47,6 +68,13 @@ Proof.
   pose proof (pack_one_crash_safe H inflate H_inj w l id objs fs clean (length (p_pack_one w id objs fs clean)) A B C D E) as (X & Y & _).
   rewrite firstn_all in X, Y. split; assumption.
 Qed.
+
+(* ... in BOTH directions: after the completed pack (with or without per-pack clean) EVERY key reads back exactly as before, present or absent *)
+Theorem C02_pack_changes_no_view : forall w l id objs fs clean k,
+  Inv H inflate w -> pending l = [] ->
+  Forall (obj_ok inflate w) objs -> NoDup (map okey objs) -> (forall o, In o objs -> ~ In (okey o) (map rkey (db w))) ->
+  stored inflate (crash (run_events (w, l) (p_pack_one w id objs fs clean))) k = stored inflate w k.
+Proof. intros w l id objs fs clean k A B C D E. exact (pack_one_exact H inflate H_inj w l id objs fs clean A B C D E k). Qed.
 
 (* delete_objects is map removal: requested keys are gone, everything else reads as before *)
 Theorem C02_delete_is_remove : forall w l ks,
@@ -75,3 +103,7 @@ Print Assumptions C02_pack_is_invisible.
 Print Assumptions C02_delete_is_remove.
 Print Assumptions C02_delete_rows.
 Print Assumptions C02_reads_are_content_addressed.
+Print Assumptions C02_add_loose_changes_nothing_else.
+Print Assumptions C02_add_to_pack_is_put_all.
+Print Assumptions C02_import_is_put_all.
+Print Assumptions C02_pack_changes_no_view.
